@@ -29,6 +29,12 @@ def run_case(ctx, case):
                 t.knot_insert([float(x) for x in nodes])
             t.knot_remove([float(x) for x in nodes])
         impl(twin)
+        for tw in mixed_twins(U, P, W):
+            def twin2(tw=tw):
+                if mode == "roundtrip":
+                    tw.knot_insert(list(nodes))
+                tw.knot_remove(list(nodes))
+            impl(twin2)
         rec.count("twin", "float-first")
     if mode == "roundtrip":
         orig = curve_state(curve)
